@@ -126,6 +126,6 @@ def isolation_cases(rng, n):
                             '(output #{}){}{}'.format(bad, want, k, '; the machine stopped: ' + faults[0] if faults else '',
                                                       '; did not finish' if hung else ''),
                     'replay': {'scripts': texts, 'alone': alone, 'together': both, 'faults': faults,
-                               'how': 'harness/concurrent.py: background job + queued job, real threads and clock'}})
+                               'how': 'harness/twoscripts.py: background job + queued job, real threads and clock'}})
                 break
     return problems, checked
